@@ -1189,7 +1189,7 @@ def r8(ctx):
                             used = {n.id for n in ast.walk(c.test) if isinstance(n, ast.Name)}
                             if used & val_names and _is_value_test(c.test, val_names):
                                 bad = (w, c, "the entry's value")
-                            elif used & key_names and not _is_none_test(c.test, key_names):
+                            elif used & key_names and not _is_none_test(c.test, key_names, lambda e, _ci=ci, _g=g: _none_const(repo, _ci, _g, e)):
                                 bad = (w, c, "the entry's key")
                             if bad:
                                 break
@@ -1202,13 +1202,25 @@ def r8(ctx):
     ctx.floor("C13.R8", "entry-writing loops in codec classes on the template's path", n_loops, 3)
 
 
-def _is_none_test(test, names):
+def _none_const(repo, ci, g, e):
+    """e is None: the literal, or a class / module constant bound to it (`DEFAULT_KEY = None`)"""
+    if isinstance(e, ast.Constant):
+        return e.value is None
+    v = None
+    if isinstance(e, ast.Attribute) and isinstance(e.value, ast.Name):
+        k = ci if e.value.id in ("self", "cls") else repo.resolve_class(e.value.id, g.module)
+        v = repo.class_attr(k, e.attr) if k is not None else None
+    elif isinstance(e, ast.Name):
+        v = repo.module_assign(g.module, e.id)
+    return isinstance(v, ast.Constant) and v.value is None
+
+
+def _is_none_test(test, names, is_none=lambda e: isinstance(e, ast.Constant) and e.value is None):
     """`k is None` / `k is not None` / `not ...` of it, over the given names"""
     if isinstance(test, ast.UnaryOp) and isinstance(test.op, ast.Not):
-        return _is_none_test(test.operand, names)
+        return _is_none_test(test.operand, names, is_none)
     return isinstance(test, ast.Compare) and len(test.ops) == 1 and isinstance(test.ops[0], (ast.Is, ast.IsNot)) and \
-        isinstance(test.left, ast.Name) and test.left.id in names and isinstance(test.comparators[0], ast.Constant) and \
-        test.comparators[0].value is None
+        isinstance(test.left, ast.Name) and test.left.id in names and is_none(test.comparators[0])
 
 
 def _is_value_test(test, names):
